@@ -44,8 +44,14 @@ TraceBias == /\ IsEvent("BiasSweep")
              /\ (Rec[l].bad = <<>> /\ Rec[l].nonfinite = <<>> /\ Rec[l].tried = 2^Rec[l].w) = TRUE
              /\ UNCHANGED <<cur, seen>>
 
+(* C01 at field level: the pattern written for ANY accepted real input (incl. inputs far out of range, which wrap) is a   *)
+(* normal form - decoding it and encoding the result writes it again; never a panic                                      *)
+NfOk(r) == /\ r.panic = ""
+           /\ ~r.enc_err => (~r.rt_err /\ r.q = r.p)
+TraceNf == IsEvent("FieldNf") /\ NfOk(Rec[l]) = TRUE /\ UNCHANGED <<cur, seen>>
+
 Init == l = 1 /\ cur = "" /\ seen = {}
-Next == TraceBegin \/ TraceSweep \/ TraceEnd \/ TraceRt \/ TraceBias
+Next == TraceBegin \/ TraceSweep \/ TraceEnd \/ TraceRt \/ TraceBias \/ TraceNf
 
 Explain(r) == IF r.ev \in {"FieldRt", "FieldSweep"} /\ r.id \in FieldIds
               THEN [field |-> FieldOf(r.id), rule |-> "encode(decode(p)) = Norm(p); absent iff p = inv; finite; sweeps: bad within {negative zero}, chunks tile the space"]
